@@ -26,8 +26,8 @@ TYPES = {
 OUTSIDE = {"ascii": "é", "alphabet": "~"}
 
 
-def length_options(size):
-    return {
+def length_options(size, tier="quick"):
+    options = {
         "none": None,
         "exact": [[size, size, True]],
         "lower-only": [[size - 1, None, False]],
@@ -35,6 +35,19 @@ def length_options(size):
         "two-items": [[1, 2, False], [size, size + 1, False]],
         "exact-shorter": [[size - 1, size - 1, True]],
     }
+    if tier == "thorough":
+        options.update({
+            "three-items": [[1, 1, True], [size, size, True], [size + 2, size + 3, False]],
+            "two-items-descending": [[size, size + 1, False], [1, 2, False]],
+            "exact-longer": [[size + 1, size + 1, True]],
+            "open-pieces": [[None, 1, False], [size, None, False]],
+            "gap-around-size": [[1, size - 1, False], [size + 1, size + 2, False]],
+        })
+    return options
+
+
+# every character str.strip() removes (apart from the blank): fixed-width cells are stripped, so these are the ones a guard may lose
+STRIPPABLE = [chr(code) for code in range(0x3001) if chr(code).isspace() and chr(code) not in " \r\n"]
 
 
 def allowed_options(code_range, fixed):
@@ -49,7 +62,7 @@ def allowed_options(code_range, fixed):
     return options
 
 
-def cells_for(decl, payload, allowed_name):
+def cells_for(decl, payload, allowed_name, tier="quick"):
     fixed = decl["fmt"] == "fixed"
     cells = ["", " ", "   "]
     variants = [payload, payload[:-1], payload + payload[-1], payload[:1]]
@@ -66,6 +79,8 @@ def cells_for(decl, payload, allowed_name):
         bad_characters = [OUTSIDE["ascii"], "\xa0", "\u2003"] if allowed_name == "ascii" else [OUTSIDE["alphabet"], "\t", "\xa0", "\x0c"]
         if allowed_name == "alphabet-without-blank":
             bad_characters.append(" ")
+        if tier == "thorough":
+            bad_characters = list(dict.fromkeys(bad_characters + STRIPPABLE + ["\x00", "\x7f", "\u00ad", "\ufeff", "\U0001f600"]))
         for bad in bad_characters:
             for position in range(len(payload)):
                 cells.append(payload[:position] + bad + payload[position + 1:])
@@ -76,6 +91,12 @@ def cells_for(decl, payload, allowed_name):
                 cells = [c for c in cells if len(c) <= width + 1]
         if allowed_name == "alphabet" and not fixed:
             cells.append(payload[:1] + " " + payload[2:])
+        if tier == "thorough":
+            # two disallowed characters, at both ends and adjacent
+            first, second = bad_characters[0], bad_characters[1]
+            cells += [first + payload[1:-1] + second, first + second + payload[2:], payload[:-2] + second + first]
+            if fixed:
+                cells = [c for c in cells if len(c) <= decl["width"] + 1]
     return [c for c in dict.fromkeys(cells)]
 
 
@@ -123,7 +144,7 @@ def judge(case, part):
         try:
             rows = harness.cid_rows(decl["preset"], [decl], allowed=decl.get("allowed"), line_delimiter="lf")
             cid = harness.make_cid(rows)
-            text, usable = c02.data_text(decl, [c for c in case["cells"] if "\x0c" not in c])
+            text, usable = c02.data_text(decl, [c for c in case["cells"] if not any(ch in c for ch in "\x0b\x0c\x1c\x1d\x1e\x85\u2028\u2029\x00")])
             events = list(cutplace.rows(cid, harness.NamedStringIO(text, "guards.txt"), on_error="yield"))
         except Exception as error:
             part.fail(tag % ("cid-path-raised-" + type(error).__name__), case, "rows readable", repr(error))
@@ -145,14 +166,16 @@ def judge(case, part):
                 part.fail(tag % "cid-path error does not name the field", narrowed, decl["name"], str(event))
 
 
-def all_cases():
+def all_cases(tier="quick"):
     cases = []
     for field_type, (rule, payload, code_range) in TYPES.items():
         size = len(payload)
-        for preset in ("delimited", "fixed", "excel", "ods"):
-            fixed = preset == "fixed"
+        for preset in ("delimited", "fixed", "excel", "ods") + (("delimited_de", "fixed_de") if tier == "thorough" else ()):
+            fixed = preset.startswith("fixed")
+            if preset.endswith("_de") and field_type == "Decimal":
+                continue  # the Decimal payload is written with the default separators
             for empty in (False, True):
-                lengths = {"exact": None} if fixed else length_options(size)
+                lengths = {"exact": None} if fixed else length_options(size, tier)
                 for length_name, length in lengths.items():
                     if field_type == "Constant" and not fixed and length is not None and not fieldmodel.length_accepts(length, size):
                         continue  # a Constant's length must admit its value (structural rule, C09)
@@ -160,14 +183,19 @@ def all_cases():
                         continue  # a non-empty Constant cannot be marked as possibly empty (C09)
                     for allowed_name, allowed in allowed_options(code_range, fixed).items():
                         decl = {"type": field_type, "preset": preset, "empty": empty, "rule": rule}
+                        widths = [None]
                         if fixed:
-                            decl["width"] = size if field_type == "Constant" else size + 2
-                        elif length:
-                            decl["length"] = length
-                        if allowed:
-                            decl["allowed"] = allowed
-                        completed = harness.complete(decl)
-                        cases.append({"decl": decl, "cells": cells_for(completed, payload, allowed_name), "dims": [length_name, allowed_name]})
+                            widths = [size] if field_type == "Constant" else ([size + 2] if tier == "quick" else [size, size + 2, size + 6])
+                        for width in widths:
+                            decl = {"type": field_type, "preset": preset, "empty": empty, "rule": rule}
+                            if fixed:
+                                decl["width"] = width
+                            elif length:
+                                decl["length"] = length
+                            if allowed:
+                                decl["allowed"] = allowed
+                            completed = harness.complete(decl)
+                            cases.append({"decl": decl, "cells": cells_for(completed, payload, allowed_name, tier), "dims": [length_name, allowed_name]})
     return cases
 
 
@@ -180,9 +208,12 @@ def work(group):
 
 
 def run(ctx):
-    cases = all_cases()
-    ctx.bound = {"declarations": len(cases), "product": "8 types x {empty allowed, not} x 6 length declarations (fixed: the exact width) x 4 allowed-character ranges x {delimited, fixed, excel, ods}",
-                 "cells": "empty, blank-only (1, 3, width, width+1), payload, one short, one long, padded left/right, one disallowed character at every position"}
+    cases = all_cases(ctx.tier)
+    thorough = ctx.tier == "thorough"
+    ctx.bound = {"declarations": len(cases), "product": "8 types x {empty allowed, not} x %d length declarations (fixed: %s) x 4 allowed-character ranges x %s" % (
+                     11 if thorough else 6, "widths payload, +2, +6" if thorough else "the exact width", "{delimited, fixed, excel, ods, delimited_de, fixed_de}" if thorough else "{delimited, fixed, excel, ods}"),
+                 "cells": "empty, blank-only (1, 3, width, width+1), payload, one short, one long, padded left/right, one disallowed character at every position" + (
+                     " (thorough: every character str.strip() removes, NUL, DEL, soft hyphen, BOM, an astral character; two disallowed characters)" if thorough else "")}
     ctx.rule = ("full product, no sampling; a case is one declaration with its guard-oriented cell list, validated on the real field format; "
                 "non-trivial = every declaration (each has cells that must be rejected by a guard); states = distinct declarations")
     ctx.assumptions = ["a blank-only fixed cell while blanks are not allowed is not judged (empty vs. disallowed character is not settled by the statement); partly filled cells are",
